@@ -54,9 +54,13 @@ class Family:
 def _levels_stream(rng, n, shift_p=0.02, scale=1.0, dyadic=True, spread=8.0):
     """piecewise-stationary scalar stream with level shifts"""
     out, lvl = [], 0.0
+    # a third of the streams are ramps: the level keeps moving, so that after every re-estimation
+    # the next alarm comes as early as the detector allows (drifts back to back)
+    slope = float(rng.choice([-2.0, -0.5, 0.5, 2.0])) if rng.random() < 0.35 else 0.0
     for _ in range(n):
         if rng.random() < shift_p:
             lvl = float(rng.integers(-4, 5)) * spread
+        lvl += slope
         x = lvl + (float(rng.integers(-8, 9)) / 8.0 if dyadic else float(rng.normal(0, 1))) * scale
         out.append(x)
     return out
